@@ -221,6 +221,20 @@ def run(rep, tier, seed, model_ok=True, effort=1):
         code, trace, hook_lines, args, logs = run_config(rep, impl, cfgk, full[1], full[2], "fakegit", kill=True)
         rep.case(("hook-killed", which))
         properties(rep, cfgk, full[1], full[2], "fakegit", code, trace, hook_lines, args)
+    # --no-fetch never fetches: also on the paths that look tags up a second time (--set-version, tag_scope branch), dry or not, git and hg
+    for vcs in ("fakegit", "fakehg"):
+        for scope in (None, "branch", "global"):
+            for extra in ([], ["--set-version", "1.2.9"], ["--dry"], ["--set-version", "1.2.9", "--dry"]):
+                prj = project.TempProject("MAJOR.MINOR.PATCH", "1.2.3", files={"a.txt": ["ver = {version}"]}, commit=True, tag=True, push=False, vcs=vcs,
+                                          tag_scope=scope, vcs_cfg=dict(tags=["1.2.3", "1.0.0"], tags_branch=["1.2.3"], status="", remote="origin", fail=[], usable=True))
+                with prj:
+                    args = ["update", "--no-fetch"] + (extra if "--set-version" in extra else ["--patch"] + extra)
+                    code, out, logs, exc = prj.run(impl, args)
+                    keys = [e["key"] for e in prj.vcs_log()]
+                rep.case(("no-fetch", vcs, scope, tuple(extra)), nontrivial=code == 0)
+                rep.count("no-fetch-variants")
+                if "fetch" in keys:
+                    rep.violation("--no-fetch fetched", input=dict(vcs=vcs, tag_scope=scope, args=args, exit=code, vcs_commands=keys), **{"class": "no-fetch-fetched"})
     if model_ok:
         bad, errs = common.coq_eval("c10", HDR, "ucfg * uopts * world * list ev * bool",
                                     "fun '(c, o, w, tr, ok) => let '(t, k) := update_trace c o w in Bool.eqb k ok && (Nat.eqb (length t) (length tr)) && forallb (fun '(a, b) => ev_eqb a b) (combine t tr)",
